@@ -15,7 +15,7 @@ def _fresh(root, tree):
     return make_store(root, fscen.P, {"USE_MULTIPROCESSING": "False"})
 
 
-def sweep(case, errnos, check, mode="th", collect=None):
+def sweep(case, errnos, check, mode="th", collect=None, probes=False):
     """Recording run + one faulted run per (site, errno, mode).  `check(info)` yields violations."""
     op, state, label = case
     c = fscen.ctx()
@@ -66,6 +66,34 @@ def sweep(case, errnos, check, mode="th", collect=None):
                     det.update({"call": list(op), "state": state, "site": i, "site_op": list(sop), "errno": en,
                                 "persistent": persistent, "outcome": r.outcome[0]})
                     out["violations"].append((sig, det))
+    # existence / size probes are file-system operations too: every stat of the call, in turn, fails once with EIO
+    # (os.path.isfile / exists / getsize sit on top of it)
+    if probes:
+        pocc = {}
+        for i, sop in enumerate(base.sites):
+            if sop[0] != "probe" or sop[1] not in ("stat", "lstat"):
+                continue
+            k = site_class(sop)
+            pname = "%s#%d" % (k, pocc.get(k, 0))
+            pocc[k] = pocc.get(k, 0) + 1
+            r = engine_f.run_call(root, init, fscen.P, op, c, fault=(i, engine_f.ERRNOS["EIO"], False, "any"), mode=mode)
+            if not r.injected:
+                continue
+            out["runs"] += 1
+            out["probe_runs"] = out.get("probe_runs", 0) + 1
+            treef = snapshot(root)
+            af = fscen.absof(treef)
+            info = {"op": op, "case": label, "site": i, "site_op": sop, "errno": "EIO", "persistent": False,
+                    "run": r, "tree": treef, "abs": af, "vis": fscen.visible(af, c), "ref": ref, "ini": ini,
+                    "root": root, "ctx": c, "state": state}
+            out["classes"].add((label, sop[0], sop[1], r.outcome[0], False))
+            for what, det in check(info):
+                sig = {"case": label, "site": k, "occurrence": int(pname.rsplit("#", 1)[1]), "errno": "EIO",
+                       "mode": "one-off", "what": what}
+                det = dict(det)
+                det.update({"call": list(op), "state": state, "site": i, "site_op": list(sop), "errno": "EIO",
+                            "persistent": False, "outcome": r.outcome[0]})
+                out["violations"].append((sig, det))
     return out
 
 
@@ -137,7 +165,7 @@ def _visdiff(a, b):
 
 def _job(case):
     errnos = ["EIO", "ENOSPC", "EACCES"]
-    return sweep(case, errnos, c13_check)
+    return sweep(case, errnos, c13_check, probes=True)
 
 
 def main(tier):
